@@ -7,6 +7,7 @@ quantize `qz ≥ 0`, delay `dl ≥ 0` (units), every tick resolution.
 -/
 import IsobarV.Sched.Balance
 import IsobarV.Props.C02
+import IsobarV.Sched.Solo
 
 namespace IsobarV.C05
 open IsobarV.Sched
@@ -94,6 +95,67 @@ theorem fireActions_queue (tl : TL) :
     (fireActions tl).actions = tl.actions.filter (fun a => ! PAct.due tl a) ∧
     (fireActions tl).tracks = ((tl.actions.filter (PAct.due tl)).foldl fireOne tl).tracks := by
   simp [fireActions]
+
+/-! ### Old stream until the switch tick, new stream from it
+
+With unique track identities the action phase is computed track by track (`foldl_fireOne_tracks`):
+a track is touched only by the due starts addressed to it. -/
+
+theorem applyStarts_none (q : Nat) (as : List PAct) (t : Track) (h : ∀ a ∈ as, a.tid ≠ t.id) :
+    applyStarts q as t = t := by
+  induction as generalizing t with
+  | nil => rfl
+  | cons a as ih =>
+    have ha := h a (by simp)
+    have : startIf q a t = t := by
+      unfold startIf; split
+      · rename_i hh; exact absurd hh.symm ha
+      · rfl
+    simp only [applyStarts, List.foldl_cons, this]
+    exact ih t (fun b hb => h b (by simp [hb]))
+
+/-- **Until its start is due an updated track keeps playing its old stream**: in a tick in which no
+    start addressed to the track is due, the action phase leaves the track exactly as it was (same
+    stream, same position, same next-event time). -/
+theorem keeps_old_stream_until_due (tl : TL) (hnd : (tl.tracks.map Track.id).Nodup) (t : Track) (ht : t ∈ tl.tracks)
+    (hnot : ∀ a ∈ tl.actions, a.tid = t.id → PAct.due tl a = false) :
+    t ∈ (fireActions tl).tracks := by
+  obtain ⟨f1, _, _⟩ := foldl_fireOne_tracks (tl.actions.filter (PAct.due tl)) tl hnd
+  simp only [fireActions, f1, List.mem_map]
+  refine ⟨t, ht, applyStarts_none _ _ _ ?_⟩
+  intro a ha heq
+  simp only [List.mem_filter] at ha
+  have := hnot a ha.1 heq
+  rw [this] at ha
+  exact absurd ha.2 (by simp)
+
+/-- **From the tick at which its start is due, only the new stream**: if the due starts addressed to
+    the track end with `a` (the one requested last), the action phase leaves the track on `a`'s stream,
+    at its beginning, first event due at once, sounding notes untouched. -/
+theorem applyStarts_last (q : Nat) (as : List PAct) (a : PAct) (t : Track) (ha : a.tid = t.id) :
+    (applyStarts q (as ++ [a]) t).sid = a.sid ∧ (applyStarts q (as ++ [a]) t).pos = 0 ∧
+    (applyStarts q (as ++ [a]) t).started = true ∧ (applyStarts q (as ++ [a]) t).offs = t.offs ∧
+    (applyStarts q (as ++ [a]) t).nxt = ((t.cur * q : Nat) : Int) := by
+  have hid : ∀ (bs : List PAct) (u : Track), (applyStarts q bs u).id = u.id ∧ (applyStarts q bs u).offs = u.offs ∧
+      (applyStarts q bs u).cur = u.cur := by
+    intro bs
+    induction bs with
+    | nil => intro u; exact ⟨rfl, rfl, rfl⟩
+    | cons b bs ih =>
+      intro u
+      simp only [applyStarts, List.foldl_cons]
+      have h := ih (startIf q b u)
+      simp only [applyStarts] at h
+      have hs : (startIf q b u).id = u.id ∧ (startIf q b u).offs = u.offs ∧ (startIf q b u).cur = u.cur := by
+        unfold startIf; split <;> simp [Track.start]
+      exact ⟨h.1.trans hs.1, h.2.1.trans hs.2.1, h.2.2.trans hs.2.2⟩
+  obtain ⟨i1, i2, i3⟩ := hid as t
+  simp only [applyStarts, List.foldl_append, List.foldl_cons, List.foldl_nil]
+  simp only [applyStarts] at i1 i2 i3
+  generalize List.foldl (fun t a => startIf q a t) t as = u at i1 i2 i3
+  have hs : startIf q a u = u.start q a.sid := by unfold startIf; rw [if_pos (by rw [i1, ha])]
+  rw [hs]
+  simp [Track.start, i2, i3]
 
 /-! Non-vacuity -/
 example : schedTime 20 24 480 0 = 480 := by decide            -- tick 24 of 24/beat = beat 1, on the 1-beat grid
